@@ -155,6 +155,9 @@ def instances(tier, seed):
         variants.append((sparse, "sparse-ids", True, " (sparse vertex ids, sparse motif ids, reversed label lists)"))
         if tier == "thorough":
             variants.append((enumr.relabelings(N, seed, kinds=("reversed",))[0], "contiguous", True, " (reversed)"))
+        if not heavy:
+            # vertex ids 1000, 1007, ...: every occurrence in the graph's edges is a separate int object
+            variants.append((enumr.relabelings(N, seed, kinds=("large",))[0], "contiguous", False, " (large vertex ids)"))
         for lab, ids, rev, suffix in variants:
             net2 = [(k, [lab[v] for v in vs], [tuple(sorted((lab[a], lab[b]))) for a, b in es]) for k, vs, es in net]
             yield {"kind": "nets", "N": N, "nets": [net2], "name": name + suffix, "verts": sorted(lab), "ids": ids,
@@ -173,7 +176,7 @@ def build_graph(verts, net, ids="contiguous", reverse_lists=False):
         key = key if key.isdigit() else str(len(vs))     # the label's first field is parsed as an int by the mixin
         label = f"{key}-{vl}-{el}-{uid}"
         for a, b in es:
-            G.add_edge(a, b, CoverLabel=label)
+            G.add_edge(enumr.fresh(a), enumr.fresh(b), CoverLabel=label)
     return G
 
 
